@@ -22,7 +22,7 @@ ID = "C14"
 LEVEL = "exploration"
 RULE = (
     "Hypothesis draws a multiset of devices: 0-3 servos (each in the prologue or at the top of the main-loop body), 0-2 parallel LCDs, "
-    "0-2 I2C LCDs (prologue; bus addresses incl. 0 and constant expressions), other devices, helpers, lists, plus decoys that merely *mention* library names (identifiers like Servo_count, "
+    "0-2 I2C LCDs (prologue, in any interleaving with the parallel ones; bus addresses incl. 0 and constant expressions), other devices, helpers, lists, plus decoys that merely *mention* library names (identifiers like Servo_count, "
     "strings like '#include <Servo.h>', comments). Oracle: equality of the five independently derived library sets (script, requested list, lib_deps of the written platformio.ini, #includes, instantiated classes), Wire.h accompanies the "
     "I2C header, nothing listed twice; every 3rd sketch is linked against the mock headers. Non-trivial = >=1 library-backed device or a decoy. "
     "distinct = distinct script."
@@ -50,6 +50,7 @@ def script(draw):
         else:
             pro += [decl] + ([use] if draw(st.booleans()) else [])
         expect.add("Servo")
+    lcd_start = len(pro)
     for i in range(draw(st.integers(0, 2))):
         pro.append(f"lp{i} = LCD(rs=12, en=11, d4=5, d5=4, d6=3, d7=2" + draw(st.sampled_from([")", ", cols=20, rows=4)", ", backlight_pin=10)", ", rw=10)", ", rw=10, cols=20, rows=4)", ", rw=7, backlight_pin=9)"])))
         if draw(st.booleans()):
@@ -60,6 +61,17 @@ def script(draw):
         if draw(st.booleans()):
             pro.append(f"li{i}.line(0, 'x')")
         expect.add("LiquidCrystal_I2C")
+    # the displays in any order (parallel, I2C, parallel ...): group each declaration with its optional use line, then permute the groups
+    groups, cur = [], []
+    for ln in pro[lcd_start:]:
+        if " = LCD(" in ln and cur:
+            groups.append(cur)
+            cur = []
+        cur.append(ln)
+    if cur:
+        groups.append(cur)
+    order = draw(st.permutations(list(range(len(groups))))) if groups else []
+    pro[lcd_start:] = [ln for gi in order for ln in groups[gi]]
     decoys = draw(st.lists(st.sampled_from(DECOYS), max_size=3, unique=True))
     others = draw(st.lists(st.sampled_from(OTHERS), max_size=4, unique=True))
     body = pro + decoys + others
